@@ -25,6 +25,8 @@ use std::rc::Rc;
 #[derive(Clone, Debug, PartialEq, Eq)]
 pub enum Tok {
     Ws,
+    /// an empty comment `/**/`: white space of another token kind (`Token::Comment`)
+    Cmt,
     LParen,
     RParen,
     Comma,
@@ -40,6 +42,7 @@ fn parse_tok(s: &str) -> Option<Tok> {
     let b = s.as_bytes();
     Some(match s {
         "~" => Tok::Ws,
+        "/**/" => Tok::Cmt,
         "(" => Tok::LParen,
         ")" => Tok::RParen,
         "," => Tok::Comma,
@@ -63,6 +66,7 @@ fn parse_toks(s: &str) -> Option<Vec<Tok>> {
 fn enc_tok(t: &Tok) -> String {
     match t {
         Tok::Ws => "~".into(),
+        Tok::Cmt => "/**/".into(),
         Tok::LParen => "(".into(),
         Tok::RParen => ")".into(),
         Tok::Comma => ",".into(),
@@ -78,6 +82,7 @@ fn enc_toks(ts: &[Tok]) -> String {
 fn spell(t: &Tok) -> String {
     match t {
         Tok::Ws => " ".into(),
+        Tok::Cmt => "/**/".into(),
         _ => enc_tok(t),
     }
 }
@@ -243,6 +248,7 @@ use rssl::text::tokens::Token;
 fn tok_of_real(t: &Token) -> Option<Tok> {
     Some(match t {
         Token::Whitespace => Tok::Ws,
+        Token::Comment => Tok::Cmt,
         Token::LeftParen => Tok::LParen,
         Token::RightParen => Tok::RParen,
         Token::Comma => Tok::Comma,
@@ -262,7 +268,7 @@ fn tok_of_real(t: &Token) -> Option<Tok> {
 
 fn spell_real(t: &Token) -> String {
     match tok_of_real(t) {
-        Some(Tok::Ws) => "~".into(),
+        Some(Tok::Ws) | Some(Tok::Cmt) => "~".into(),
         Some(t) => enc_tok(&t),
         None => match t {
             Token::PlusPlus => "++".into(),
@@ -324,7 +330,7 @@ fn program_faithful(p: &Program) -> Result<(), String> {
             match l {
                 Line::Define(t) | Line::Undef(t) => {
                     // the directive name must be separated from what follows
-                    if !matches!(t.first(), Some(Tok::Ws)) && !t.is_empty() {
+                    if !matches!(t.first(), Some(Tok::Ws) | Some(Tok::Cmt)) && !t.is_empty() {
                         return Err("directive glued to its operand".into());
                     }
                     if !lex_faithful(t) {
@@ -451,6 +457,9 @@ enum RK {
     HashHashText,
     Nl,
     Placemarker,
+    /// end of the replacement list of one invocation (only pushed when a `reinvoke_*` deviation is switched on);
+    /// the token's hide set is the one of the invocation, the payload the invoked macro if it is function-like
+    RegionEnd(Option<String>),
 }
 
 type HS = Rc<BTreeSet<String>>;
@@ -500,6 +509,13 @@ struct Dev {
     api_dup_keeps_first: bool,
     /// `#pragma once` is keyed by the name written in the `#include`, not by the file it resolves to
     once_by_include_name: bool,
+    /// when the expansion of a replacement list is complete and ends in the name of a function-like macro that is
+    /// painted by an inner expansion (C: never replaced again) but is neither the macro just applied nor one under
+    /// expansion at the level of the invocation, and `(` follows, RSSL invokes it (`early_function_pos`)
+    reinvoke_painted: bool,
+    /// the same for a name that C kept because the token that followed it at the time was not `(` (it was a macro that
+    /// later expanded to nothing)
+    reinvoke_deferred: bool,
 }
 
 const DEV_NAMES: &[&str] = &[
@@ -510,6 +526,8 @@ const DEV_NAMES: &[&str] = &[
     "argument-repainted",
     "duplicate-api-define",
     "pragma-once-by-include-name",
+    "painted-function-name-reinvoked",
+    "function-name-before-vanished-macro-invoked",
 ];
 
 impl Dev {
@@ -522,6 +540,8 @@ impl Dev {
             args_unpainted: b & 16 != 0,
             api_dup_keeps_first: b & 32 != 0,
             once_by_include_name: b & 64 != 0,
+            reinvoke_painted: b & 128 != 0,
+            reinvoke_deferred: b & 256 != 0,
         }
     }
     fn names(b: u32) -> String {
@@ -556,7 +576,7 @@ fn rk_spelling(k: &RK) -> String {
         RK::Comma => ",".into(),
         RK::Paste | RK::HashHashText => "##".into(),
         RK::Nl => "\n".into(),
-        RK::Placemarker => "".into(),
+        RK::Placemarker | RK::RegionEnd(_) => "".into(),
     }
 }
 
@@ -572,7 +592,7 @@ const PUNCT_MERGE: &[(&str, &str, &str)] = &[
 impl<'a> Reference<'a> {
     fn rk_of(t: &Tok, in_body: bool) -> Option<RK> {
         Some(match t {
-            Tok::Ws => return None,
+            Tok::Ws | Tok::Cmt => return None,
             Tok::LParen => RK::LParen,
             Tok::RParen => RK::RParen,
             Tok::Comma => RK::Comma,
@@ -591,6 +611,9 @@ impl<'a> Reference<'a> {
 
     /// `#define` with the given tokens after the directive name
     fn define(&mut self, toks: &[Tok], paste_active: bool) -> Result<(), RefErr> {
+        // a comment is white space
+        let toks: Vec<Tok> = toks.iter().map(|t| if *t == Tok::Cmt { Tok::Ws } else { t.clone() }).collect();
+        let toks = &toks[..];
         let mut i = 0;
         while i < toks.len() && toks[i] == Tok::Ws {
             i += 1;
@@ -637,7 +660,7 @@ impl<'a> Reference<'a> {
     }
 
     fn undef(&mut self, toks: &[Tok]) -> Result<(), RefErr> {
-        let t: Vec<&Tok> = toks.iter().filter(|t| **t != Tok::Ws).collect();
+        let t: Vec<&Tok> = toks.iter().filter(|t| **t != Tok::Ws && **t != Tok::Cmt).collect();
         match t.as_slice() {
             [Tok::Id(n)] => {
                 self.macros.remove(n);
@@ -661,10 +684,35 @@ impl<'a> Reference<'a> {
         let mut out = Vec::new();
         // `ts` is kept reversed so that the head is popped cheaply
         ts.reverse();
+        let markers = self.dev.reinvoke_painted || self.dev.reinvoke_deferred;
         while let Some(t) = ts.pop() {
             self.tick()?;
             let name = match &t.k {
                 RK::Id(n) => n.clone(),
+                RK::RegionEnd(last_fn) => {
+                    // RSSL mimicry: the replacement list of an invocation has been expanded completely.  If tokens
+                    // remain in the enclosing list (the next entry is not another end marker), RSSL looks at the
+                    // expansion once more for a function-like name whose `(` follows the expansion.
+                    let follows = matches!(ts.last(), Some(RTok { k: RK::LParen, .. }));
+                    if follows {
+                        let again = match out.last() {
+                            Some(RTok { k: RK::Id(g), hs }) => {
+                                let fnlike = matches!(self.macros.get(g), Some(m) if m.params.is_some());
+                                let painted = hs.contains(g);
+                                fnlike
+                                    && !t.hs.contains(g)
+                                    && last_fn.as_deref() != Some(g.as_str())
+                                    && ((painted && self.dev.reinvoke_painted) || (!painted && self.dev.reinvoke_deferred))
+                            }
+                            _ => false,
+                        };
+                        if again {
+                            let g = out.pop().unwrap();
+                            ts.push(RTok { k: g.k, hs: t.hs.clone() });
+                        }
+                    }
+                    continue;
+                }
                 _ => {
                     out.push(t);
                     continue;
@@ -674,7 +722,7 @@ impl<'a> Reference<'a> {
                 if let Some(m) = self.macros.get(&name) {
                     if m.params.is_some() {
                         let mut j = ts.len();
-                        while j > 0 && ts[j - 1].k == RK::Nl {
+                        while j > 0 && matches!(ts[j - 1].k, RK::Nl | RK::RegionEnd(_)) {
                             j -= 1;
                         }
                         if j > 0 && ts[j - 1].k == RK::LParen {
@@ -697,6 +745,9 @@ impl<'a> Reference<'a> {
                     let mut hs = (*t.hs).clone();
                     hs.insert(name.clone());
                     let body = self.subst(&m, &[], Rc::new(hs))?;
+                    if markers {
+                        ts.push(RTok { k: RK::RegionEnd(None), hs: t.hs.clone() });
+                    }
                     for b in body.into_iter().rev() {
                         ts.push(b);
                     }
@@ -705,8 +756,10 @@ impl<'a> Reference<'a> {
                     // look for `(`, skipping line ends (C) -- or not (RSSL deviation)
                     let mut j = ts.len();
                     let mut saw_nl = false;
-                    while j > 0 && ts[j - 1].k == RK::Nl {
-                        saw_nl = true;
+                    while j > 0 && matches!(ts[j - 1].k, RK::Nl | RK::RegionEnd(_)) {
+                        if ts[j - 1].k == RK::Nl {
+                            saw_nl = true;
+                        }
                         j -= 1;
                     }
                     let is_call = j > 0 && ts[j - 1].k == RK::LParen;
@@ -728,6 +781,7 @@ impl<'a> Reference<'a> {
                             None => return Err(RefErr::Unterminated),
                         };
                         match a.k {
+                            RK::RegionEnd(_) => {}
                             RK::LParen => {
                                 depth += 1;
                                 args.last_mut().unwrap().push(a);
@@ -753,9 +807,13 @@ impl<'a> Reference<'a> {
                     } else if args.len() != params.len() {
                         return Err(RefErr::Arity);
                     }
-                    let mut hs: BTreeSet<String> = t.hs.intersection(&close_hs).cloned().collect();
+                    let outer: BTreeSet<String> = t.hs.intersection(&close_hs).cloned().collect();
+                    let mut hs = outer.clone();
                     hs.insert(name.clone());
                     let body = self.subst(&m, &args, Rc::new(hs))?;
+                    if markers {
+                        ts.push(RTok { k: RK::RegionEnd(Some(name.clone())), hs: Rc::new(outer) });
+                    }
                     for b in body.into_iter().rev() {
                         ts.push(b);
                     }
@@ -996,7 +1054,7 @@ fn run_reference(p: &Program, dev: Dev, notes: &mut RefNotes) -> Result<Vec<Stri
         line.push(Tok::Ws);
         line.extend(v.iter().cloned());
         if dev.api_dup_keeps_first {
-            if let Some(Tok::Id(first)) = n.iter().find(|t| **t != Tok::Ws) {
+            if let Some(Tok::Id(first)) = n.iter().find(|t| **t != Tok::Ws && **t != Tok::Cmt) {
                 if r.macros.contains_key(first) {
                     continue;
                 }
@@ -1035,7 +1093,7 @@ struct Gen<'a> {
 }
 
 fn push_sep(out: &mut Vec<Tok>) {
-    if !matches!(out.last(), Some(Tok::Ws) | None) {
+    if !matches!(out.last(), Some(Tok::Ws) | Some(Tok::Cmt) | None) {
         out.push(Tok::Ws);
     }
 }
@@ -1156,6 +1214,54 @@ impl<'a> Gen<'a> {
                 self.element(params, 2, &mut out, &mut budget);
             }
         }
+        // an invocation that is completed by the text after the expansion: the body ends in the name of a
+        // function-like macro, possibly followed by something that disappears (an empty argument, a macro with an
+        // empty body) or stays
+        if self.rng.chance(1, 5) {
+            let fns: Vec<usize> = (0..self.macros.len()).filter(|i| self.macros[*i].params.is_some()).collect();
+            if !fns.is_empty() {
+                let mi = *self.rng.pick(&fns);
+                push_sep(&mut out);
+                out.push(Tok::Id(self.macros[mi].name.clone()));
+                self.hist.add("body:ends-in-function-name");
+                match self.rng.below(6) {
+                    0 | 1 if params > 0 => {
+                        out.push(Tok::Ws);
+                        out.push(Tok::Id(PARAM_NAMES[self.rng.below(params as u64) as usize].to_string()));
+                        self.hist.add("body:function-name-then-parameter");
+                    }
+                    2 | 3 => {
+                        let objs: Vec<usize> = (0..self.macros.len()).filter(|i| self.macros[*i].params.is_none()).collect();
+                        if !objs.is_empty() {
+                            let oi = *self.rng.pick(&objs);
+                            out.push(Tok::Ws);
+                            out.push(Tok::Id(self.macros[oi].name.clone()));
+                            self.hist.add("body:function-name-then-object-macro");
+                        }
+                    }
+                    _ => {}
+                }
+            }
+        }
+        out
+    }
+
+    /// more white space: a blank becomes a comment now and then, and token boundaries get white space
+    fn sprinkle(&mut self, ts: Vec<Tok>) -> Vec<Tok> {
+        let mut out = Vec::with_capacity(ts.len() + 4);
+        for (i, t) in ts.iter().enumerate() {
+            if *t == Tok::Ws && self.rng.chance(1, 5) {
+                out.push(Tok::Cmt);
+                self.hist.add("ws:comment");
+                continue;
+            }
+            out.push(t.clone());
+            let next_is_ws = matches!(ts.get(i + 1), Some(Tok::Ws) | Some(Tok::Cmt) | None);
+            if *t != Tok::Ws && !next_is_ws && self.rng.chance(1, 14) {
+                out.push(if self.rng.chance(1, 2) { Tok::Ws } else { Tok::Cmt });
+                self.hist.add("ws:inserted-at-token-boundary");
+            }
+        }
         out
     }
 
@@ -1195,6 +1301,7 @@ impl<'a> Gen<'a> {
             if b.first() == Some(&Tok::Ws) {
                 b.remove(0);
             }
+            let b = self.sprinkle(b);
             t.extend(b);
         }
         t
@@ -1211,6 +1318,27 @@ impl<'a> Gen<'a> {
         if out.first() == Some(&Tok::Ws) {
             out.remove(0);
         }
+        // the text goes on with parenthesised groups: arguments for a function-like name an expansion ends in
+        if self.rng.chance(1, 4) {
+            let groups = 1 + self.rng.below(3);
+            for _ in 0..groups {
+                if self.rng.chance(1, 3) {
+                    out.push(Tok::Ws);
+                }
+                out.push(Tok::LParen);
+                let n = self.rng.below(3);
+                for a in 0..n {
+                    if a > 0 {
+                        out.push(Tok::Comma);
+                    }
+                    let t = self.atom(0);
+                    out.push(t);
+                }
+                out.push(Tok::RParen);
+            }
+            self.hist.add("site:parenthesised-groups-after-the-invocation");
+        }
+        let mut out = self.sprinkle(out);
         // split inside an argument list now and then
         if self.rng.chance(1, 8) {
             if let Some(pos) = out.iter().position(|t| *t == Tok::Comma) {
@@ -1485,21 +1613,22 @@ fn judge(p: &Program, out: &mut Out, hist: &mut Hist) {
             let mut class = "unexplained".to_string();
             // smallest set of deviations that reproduces the real output
             let mut best: Option<u32> = None;
-            for bits in 1u32..(1 << DEV_NAMES.len()) {
-                if let Some(b) = best {
-                    if bits.count_ones() >= b.count_ones() {
+            'search: for k in 1..=3u32 {
+                for bits in 1u32..(1 << DEV_NAMES.len()) {
+                    if bits.count_ones() != k {
                         continue;
                     }
-                }
-                let mut n2 = RefNotes::default();
-                let alt = run_reference(p, Dev::from_bits(bits), &mut n2);
-                let same = match (&real, &alt) {
-                    (Real::Ok(t), Ok(e)) => t == e,
-                    (Real::Err(_), Err(_)) => true,
-                    _ => false,
-                };
-                if same {
-                    best = Some(bits);
+                    let mut n2 = RefNotes::default();
+                    let alt = run_reference(p, Dev::from_bits(bits), &mut n2);
+                    let same = match (&real, &alt) {
+                        (Real::Ok(t), Ok(e)) => t == e,
+                        (Real::Err(_), Err(_)) => true,
+                        _ => false,
+                    };
+                    if same {
+                        best = Some(bits);
+                        break 'search;
+                    }
                 }
             }
             // an unused argument that RSSL expands anyway may itself need a placemarker / meet a painted name
